@@ -86,6 +86,7 @@ type node struct {
 	optional, nullable bool
 	enum               []string // literal texts of enum items
 	orAlts             []string // "integer" "string" "@t" …
+	orEnum             []string // literal texts of the enum members of an or rule
 	addProps           string   // "", "true", "false", "any", "string", "integer", "@t"
 	refs               []string // names without '@' for kind ref
 }
@@ -327,20 +328,79 @@ func (g *gen) orRule(n *node, own string) {
 	r := g.r
 	g.feat("or")
 	v := rval{kind: 'a'}
-	first := rval{kind: 'o', obj: []rule{{"type", lit(`"` + own + `"`)}}}
-	if own == "integer" && g.chance(0.5) {
-		first.obj = append(first.obj, rule{"min", lit(fmt.Sprint(n.val.(int) - 1))})
+	set := func(rs ...rule) rval {
+		r.Shuffle(len(rs), func(i, j int) { rs[i], rs[j] = rs[j], rs[i] })
+		return rval{kind: 'o', obj: rs}
 	}
-	if own == "string" && g.chance(0.5) {
-		first.obj = append(first.obj, rule{"maxLength", lit(fmt.Sprint(len(n.val.(string)) + 1))})
+	// the alternative that fits the example of n: a typed rule set with every rule such a member may carry, a
+	// rule set without `type`, or an `enum` member
+	var first rval
+	switch own {
+	case "integer":
+		x := n.val.(int)
+		switch r.Intn(4) {
+		case 0:
+			items := []string{fmt.Sprint(x), fmt.Sprint(x + 3)}
+			if g.chance(0.5) {
+				items = append(items, `"x"`, "null")
+			}
+			first = set(rule{"enum", arrOf(items)})
+			n.orEnum = append(n.orEnum, items...)
+			g.feat("enum")
+			g.feat("or-member-enum")
+		case 1:
+			first = set(rule{"min", lit(fmt.Sprint(x - 1))})
+		default:
+			rs := []rule{{"type", lit(`"integer"`)}}
+			if g.chance(0.5) {
+				rs = append(rs, rule{"min", lit(fmt.Sprint(x - 1))})
+				if g.chance(0.4) {
+					rs = append(rs, rule{"exclusiveMinimum", lit("true")})
+				}
+			}
+			if g.chance(0.5) {
+				rs = append(rs, rule{"max", lit(fmt.Sprint(x + 2))})
+			}
+			if g.chance(0.2) {
+				rs = append(rs, rule{"nullable", lit("true")})
+			}
+			first = set(rs...)
+		}
+	default: // string
+		str := n.val.(string)
+		switch r.Intn(4) {
+		case 0:
+			items := []string{n.lit}
+			for _, c := range []string{`"zz"`, "7", "null"} {
+				if g.chance(0.5) {
+					items = append(items, c)
+				}
+			}
+			first = set(rule{"enum", arrOf(items)})
+			n.orEnum = append(n.orEnum, items...)
+			g.feat("enum")
+			g.feat("or-member-enum")
+		default:
+			rs := []rule{{"type", lit(`"string"`)}}
+			if g.chance(0.5) {
+				rs = append(rs, rule{"maxLength", lit(fmt.Sprint(len(str) + 1))})
+			}
+			if g.chance(0.4) {
+				rs = append(rs, rule{"minLength", lit(fmt.Sprint(max0(len(str) - 1)))})
+			}
+			if g.chance(0.3) {
+				rs = append(rs, rule{"regex", lit(`".*"`)})
+			}
+			first = set(rs...)
+		}
 	}
 	v.arr = append(v.arr, first)
 	n.orAlts = []string{own}
-	others := []string{"string", "integer", "boolean", "null", "@t", "@u"}
+	others := []string{"string", "integer", "boolean", "null", "float", "decimal", "email", "array", "object", "enum", "@t", "@u"}
 	if !g.refsOK {
-		others = others[:4]
+		others = others[:10]
 	}
-	cnt := 2 + r.Intn(2)
+	cnt := 2 + r.Intn(3)
 	for len(n.orAlts) < cnt {
 		o := others[r.Intn(len(others))]
 		dup := false
@@ -351,13 +411,61 @@ func (g *gen) orRule(n *node, own string) {
 			continue
 		}
 		n.orAlts = append(n.orAlts, o)
+		ty := rule{"type", lit(`"` + o + `"`)}
 		switch {
 		case o[0] == '@' && g.chance(0.5):
 			v.arr = append(v.arr, lit(`"`+o+`"`))
-		case o == "string" && g.chance(0.5):
-			v.arr = append(v.arr, rval{kind: 'o', obj: []rule{{"type", lit(`"string"`)}, {"minLength", lit("2")}}})
+		case o == "string":
+			rs := []rule{ty}
+			if g.chance(0.5) {
+				rs = append(rs, rule{"minLength", lit("2")})
+			}
+			if g.chance(0.3) {
+				rs = append(rs, rule{"maxLength", lit("6")})
+			}
+			if g.chance(0.3) {
+				rs = append(rs, rule{"regex", lit(`"^[a-zé/]+$"`)})
+			}
+			v.arr = append(v.arr, set(rs...))
+		case o == "integer":
+			rs := []rule{ty}
+			if g.chance(0.5) {
+				rs = append(rs, rule{"min", lit("0")})
+			}
+			if g.chance(0.3) {
+				rs = append(rs, rule{"max", lit("100")})
+			}
+			v.arr = append(v.arr, set(rs...))
+		case o == "float":
+			rs := []rule{ty}
+			if g.chance(0.5) {
+				rs = append(rs, rule{"min", lit("0.5")})
+			}
+			v.arr = append(v.arr, set(rs...))
+		case o == "decimal":
+			v.arr = append(v.arr, set(ty, rule{"precision", lit("2")}))
+		case o == "array":
+			rs := []rule{ty}
+			if g.chance(0.5) {
+				rs = append(rs, rule{"minItems", lit("1")})
+			}
+			v.arr = append(v.arr, set(rs...))
+		case o == "object":
+			rs := []rule{ty}
+			if g.chance(0.5) {
+				rs = append(rs, rule{"additionalProperties", lit("true")})
+			}
+			v.arr = append(v.arr, set(rs...))
+		case o == "enum":
+			items := []string{`"a"`, `"b/c"`, "null", "2.50", "true", "42"}
+			r.Shuffle(len(items), func(i, j int) { items[i], items[j] = items[j], items[i] })
+			items = items[:1+r.Intn(4)]
+			v.arr = append(v.arr, set(rule{"enum", arrOf(items)}))
+			n.orEnum = append(n.orEnum, items...)
+			g.feat("enum")
+			g.feat("or-member-enum")
 		default:
-			v.arr = append(v.arr, rval{kind: 'o', obj: []rule{{"type", lit(`"` + o + `"`)}}})
+			v.arr = append(v.arr, set(ty))
 		}
 	}
 	if g.chance(0.5) { // put the own alternative somewhere else
@@ -1104,6 +1212,27 @@ func (g *gen) sample(n *node, types typeTable, fuel int) *dval {
 		case "boolean":
 			return &dval{kind: 'l', lit: "true"}
 		case "null":
+			return dnull()
+		case "float", "decimal":
+			return &dval{kind: 'n', num: []string{"2.5", "0.75", "1.0"}[r.Intn(3)]}
+		case "email":
+			return &dval{kind: 's', s: "a@b.cc"}
+		case "array":
+			d := &dval{kind: 'a'}
+			if r.Intn(2) == 0 {
+				d.kids = append(d.kids, &dval{kind: 's', s: "é/"})
+			}
+			return d
+		case "object":
+			d := &dval{kind: 'o'}
+			if r.Intn(2) == 0 {
+				d.keys, d.kids = []string{"k/é"}, []*dval{{kind: 'n', num: "1"}}
+			}
+			return d
+		case "enum":
+			if len(n.orEnum) > 0 {
+				return litToDoc(n.orEnum[r.Intn(len(n.orEnum))])
+			}
 			return dnull()
 		default:
 			if t, ok := types[a[1:]]; ok && fuel > 0 {
